@@ -106,6 +106,15 @@ func genC02(ctx *Ctx) {
 		text := p.at(t, 0)
 		ctx.Count(fmt.Sprintf("tree-parens:%d", p.parens))
 		ctx.Input(exprInput(text, sx.L(), t), true)
+		if i%10 == 0 { // a valid expression with a non-ASCII blank glued to one end
+			pad := []string{"\u00a0", "\u3000", "\u0085", "\u2003", "\v", "\f"}[ctx.Rnd.Intn(6)]
+			if ctx.Rnd.Intn(2) == 0 {
+				ctx.Input(exprInput(text+pad, sx.L(), nil), true)
+			} else {
+				ctx.Input(exprInput(pad+text, sx.L(), nil), true)
+			}
+			ctx.Count("padded-with-non-ascii-blank")
+		}
 		// token-level mutants of this valid expression
 		for m := 0; m < 3; m++ {
 			mt := mutateTokens(ctx, textTokens(text))
@@ -122,7 +131,8 @@ func genC02(ctx *Ctx) {
 	}
 	// a few special inputs: empty, blanks, unknown symbols, empty quoted identifier
 	for _, s := range []string{"", "   ", "a $ b", "a ? 1", "\"\"", "a + \"\"", "#", "a.b", "1 2", "f(,)", "f(a,,b)", "a[1][2]", "NOT NOT a", "a = NOT b", "- - a", "a IS NULL IS NULL", "f(a,)", "@", "ſ", "ıs",
-		"a lıke b", "a ıs null", "a ıN b", "x NOT Lıke y", "a iſ nULL", "not falſe", "a LI\u212aE b", "a \u212a b", "nULL ıſ nULL", "a xOR b", "truE aND falSe", "a L\u0130KE b"} {
+		"a lıke b", "a ıs null", "a ıN b", "x NOT Lıke y", "a iſ nULL", "not falſe", "a LI\u212aE b", "a \u212a b", "nULL ıſ nULL", "a xOR b", "truE aND falSe", "a L\u0130KE b",
+		"(a + b)\u00a0", "\u00a0a + b", "\u00a0", "a + b\u3000", "\u2003a", "a\u0085", "\u00a0 a \u00a0", "a + b\v", "\fa", "a\u2028", "\ufeffa"} {
 		ctx.Count("special")
 		ctx.Input(exprInput(s, sx.L(), nil), true)
 	}
